@@ -2,7 +2,7 @@
 """Regenerate /verif/MANIFEST.json from the table below (keeps it schema-valid)."""
 import json, subprocess
 
-HOOK_COMMITS = ["76d1dcf", "4fe8242"]
+HOOK_COMMITS = ["76d1dcf", "4fe8242", "f0fc890"]
 
 CLAIMED = {
  "C01": dict(cat="exploration",
@@ -49,6 +49,10 @@ CLAIMED = {
    text="Real PASE handshakes between a commissioner, a device and a second concurrent initiator over the simulated network, with per-run ground truth: passcode equal/different, crafted Pake1 points (identity, off-curve, wrong length), on-path mutation/replay/reorder of every handshake datagram, window events (close, virtual-time expiry, re-open) placed between every pair of handshake messages, 25 consecutive wrong-passcode attempts. Oracle: a PASE session at the device implies window open at the final proof, equal passcodes and intact transcript, mirrored keys; lock-out after 20 failed proofs; commissionable mDNS service listed iff window open; no reserved session / in-progress marker left at quiescence.",
    note="Trusted: simulated network/clock, read-only PASE-state and session snapshot hooks. Over-counting failures / closing early are not judged. Enhanced (verifier) windows and RevokeCommissioning-over-IM are not exercised here (C07/C08 drive RevokeCommissioning).",
    tech="runtime monitoring: ground-truth oracle over session tables, window state and mDNS service list under a network adversary", ref="DESIGN.md §3 C02"),
+ "C11": dict(cat="fault_enumeration",
+   text="Administrative histories over the full device (1-2 completed commissionings, NodeLabel and ACL writes, CASE rounds filling the resumption cache, fabric removal) with a recording KV store; EVERY prefix of the KV operation log is a crash point: a device restarted from the map after k operations must come up with each committed item (each fabric record incl. ACL, network list, node label) at its last acknowledged or its next value. Plus read-back equality at the end, factory reset leaving no key below the vendor range, and start-up with a damaged resumption blob (every truncation, bit flips, random bytes, boundary length fields).",
+   note="KvBlobStore contract: each store atomic and durable on return; multi-write atomicity is judged by C08. Bindings, user labels, group key sets and persisted subscriptions are not driven by these histories (C13 covers restart with persisted subscriptions).",
+   tech="runtime monitoring: acknowledged-change oracle with exhaustive crash-point enumeration over the recorded KV log; corruption fuzzing of the resumption blob", ref="DESIGN.md §3 C11"),
  "C12": dict(cat="fault_enumeration",
    text="Histories of {reserve, restart, crash before/after each individual KV store, injected store failure} over the three durable counters, starting from boundaries incl. next to the wrap-around; every crash point of histories <= 12 operations is enumerated. Group counter through the reservation hook and through real Exchange::initiate_group sends read off the wire tap; event numbers through a real InteractionModel; check-in counter through the public Icd API with the harness as a well-behaved application. Oracle: values yielded over all incarnations form a set, and each value is covered by a boundary durable in the KV map at the time of use.",
    note="KvBlobStore contract assumed: each store atomic and durable on return. Uniqueness asserted for histories shorter than one lap of the counter range. factory_reset and Icd::send_check_in end-to-end not covered.",
